@@ -139,15 +139,15 @@ def observe(rec):
                 other.append(p)
     vlines = []
     pre = rec["root"] + "/w/"
-    for ln in rec["stdout"].split("\n"):
-        m = re.match(r"(?:generated file )?(\S+): (patched|skipped)$", ln)
-        if m and (m.group(1).startswith(pre) or m.group(1).startswith(pre[:-1] + "l/")):
-            # (a file that was named through the link next to the tree may be reported under that spelling)
-            vlines.append(m.group(1)[len(pre) + (0 if m.group(1).startswith(pre) else 1):].split("/"))
-        elif ln:
-            other.append("stdout:" + ln[:80])
-    if rec["stderr"]:
-        other.append("stderr:" + rec["stderr"][:200])
+    # the -v lines ("<file>: patched"), in the order in which they were written (which stream carries them is C12's business)
+    for stream in ("stdout", "stderr"):
+        for ln in rec[stream].split("\n"):
+            m = re.match(r"(?:generated file )?(\S+): (patched|skipped)$", ln)
+            if m and (m.group(1).startswith(pre) or m.group(1).startswith(pre[:-1] + "l/")):
+                # (a file that was named through the link next to the tree may be reported under that spelling)
+                vlines.append(m.group(1)[len(pre) + (0 if m.group(1).startswith(pre) else 1):].split("/"))
+            elif ln:
+                other.append(stream + ":" + ln[:200])
     return dict(changed=changed, twice=twice, vlines=vlines, other=other, exit=rec["exit"])
 
 
